@@ -94,9 +94,41 @@ fn main() {
                     scen::graph_scenario(i, &mut srng, &o, family)
                 }
             }
-            "doc" | "doctext" => {
+            "seq" => {
+                use serde_json::json;
+                let mut prof = Profile::all();
+                prof.invalid_pct = 25;
+                prof.max_len = 6;
+                let iv = |k: &str, s: &str, n: i64| json!({"k":k,"s":s,"n":n,"toks":[]});
+                let base = vec![
+                    json!({"fn":"put_object","obj":[0,0],"key":"l","ty":"list"}),
+                    json!({"fn":"insert","obj":[1,1],"idx":0,"val":iv("counter","",1)}),
+                    json!({"fn":"insert","obj":[1,1],"idx":1,"val":iv("int","7",0)}),
+                    json!({"fn":"insert","obj":[1,1],"idx":2,"val":iv("bool","true",0)}),
+                    json!({"fn":"put_object","obj":[0,0],"key":"t","ty":"text"}),
+                    json!({"fn":"splice_text","obj":[5,1],"idx":0,"del":0,"toks":["a","b","c"]}),
+                    json!({"fn":"put","obj":[0,0],"key":"k1","val":iv("counter","",2)}),
+                ];
+                let o = scen::GraphOpts {
+                    weights: scen::W_DOC,
+                    twin_start: false,
+                    base_calls: base,
+                    steps: 8 + srng.below(8),
+                    max_reps: 3,
+                    max_changes: 12,
+                    dup_actors: false,
+                    obs: ObsLevel::View,
+                    prof,
+                    enc: automerge::TextEncoding::UnicodeCodePoint,
+                };
+                scen::graph_scenario(i, &mut srng, &o, family)
+            }
+            "doc" | "doctext" | "docinv" => {
                 let text = family == "doctext";
                 let mut prof = Profile::all();
+                if family == "docinv" {
+                    prof.invalid_pct = 30;
+                }
                 if text {
                     prof.lists = false;
                     prof.unicode = true;
